@@ -18,6 +18,7 @@ from .ops import OpsMixin
 from .oracles import OracleMixin
 
 MAX_IDLE_ITERS = 4000
+_UNNAMED_SEEN = set()  # names of unnamed pools created in this process
 
 
 class Gate:
@@ -35,7 +36,9 @@ class Livelock(Exception):
 
 
 class World(OpsMixin, OracleMixin):
-    def __init__(self, scenario, mods, focus=None):
+    def __init__(self, scenario, mods, focus=None, no_faults=False, skip_rejected=False):
+        self.skip_rejected = skip_rejected  # twin run: requests the model expects to be rejected are not made at all
+        self.no_faults = no_faults  # twin run: every injected body / callback failure is replaced by success at the same point
         self.sc = scenario
         self.mods = mods  # namespace with pool module + exceptions
         self.focus = focus
@@ -60,19 +63,26 @@ class World(OpsMixin, OracleMixin):
         self.quiescences = 0
         self.draining = False
         self.waiters = []
-        self.max_viol = 8
+        self.max_viol = 40
+        self.viol_per_clause = {}
         self.unknown_names = 0
         self.checks_on = True
         self.n_instant = 0
 
     # ------------------------------------------------------------ basics
     def ev(self, kind, *data):
+        if not self.checks_on:
+            return len(self.log)  # tear-down of the loop: order of forced cancellations is not meaningful
         lp = self.loop
         self.log.append((kind, lp.vf_iteration, lp.vf_handle_no) + data)
         return len(self.log) - 1
 
     def violate(self, clause, msg, pool=None):
         if self.checks_on and len(self.viol) < self.max_viol:
+            n = self.viol_per_clause.get(clause, 0)
+            self.viol_per_clause[clause] = n + 1
+            if n >= 2:
+                return  # keep room for other clauses: a repeated alarm must not crowd out a different one
             v = {"clause": clause, "msg": msg, "at": len(self.log), "triggers": sorted(self.triggers)}
             if pool is not None:
                 v["pool"] = pool
@@ -158,6 +168,11 @@ class World(OpsMixin, OracleMixin):
             pr.obj = obj
             pr.pstr = str(obj)
         pr.size_track = bool(ps.get("size_track"))
+        if ps.get("name") is None:
+            if pr.pstr in _UNNAMED_SEEN:
+                self.violate("C11.pool_names", f"two unnamed pools share the name {pr.pstr!r}")
+            _UNNAMED_SEEN.add(pr.pstr)
+            self.sit["C11.unnamed_pools"] += 1
         self.pools.append(pr)
         self.ev("pool", i, ps["cls"], size, pr.pstr)
         return pr
@@ -278,9 +293,15 @@ class World(OpsMixin, OracleMixin):
                             self.cancel_seen(t, "w")
                     return "cancelled", ce
                 return "cancelled", ce
+            if t.pending and ins[0] in ("y", "g") and (ins[0] == "g" or ins[1] > 0):
+                self.delivery_violation(t, f"task {t.tid} resumed normally from a suspension although a cancellation had been requested before (not delivered at its next suspension point)")
+                t.pending = False
+                t.owed -= 1
             self.ucp(pr, ("resume", t.tid))
         end = spec.get("end", "return")
         if end == "raise":
+            if self.no_faults:
+                return "return", None
             return "raise", self.new_exc(f"body:{t.tid}")
         if end == "selfcancel_raise":
             # the coroutine itself ends with CancelledError without being cancelled
@@ -350,7 +371,7 @@ class World(OpsMixin, OracleMixin):
                     world.ucp(t.pool, ("cb", t.tid))
                 finally:
                     world._cb_exit(t, kind)
-                if spec.get("raise"):
+                if spec.get("raise") and not world.no_faults:
                     raise world.new_exc(f"{kind}cb:{tid}")
         else:
             def cb(tid):
@@ -361,7 +382,7 @@ class World(OpsMixin, OracleMixin):
                     world.ucp(t.pool, ("cb", t.tid))
                 finally:
                     world._cb_exit(t, kind)
-                if spec.get("raise"):
+                if spec.get("raise") and not world.no_faults:
                     raise world.new_exc(f"{kind}cb:{tid}")
         cb.__name__ = f"{kind}cb{req.idx}"
         return cb
